@@ -250,7 +250,8 @@ def run_lookup(case):
             o = {"domain": [float(lo), float(hi)], "range": [float(v) for v in lt.range], "xs": [float(v) for v in xs],
                  "table": [float(v) for v in lt(xs)], "scalar": float(lt(xs[3])), "ref": [float(v) for v in splev(xs, (t, c, k))],
                  "nan": [None if math.isnan(v) else float(v) for v in lt([xs[1], float("nan"), xs[2]])],
-                 "nan_scalar": lt(float("nan")), "flo": float(lt(lo)), "fhi": float(lt(hi))}
+                 "nan_scalar": lt(float("nan")), "flo": float(lt(lo)), "fhi": float(lt(hi)),
+                 "d2_test": [float(v) for v in splev(np.linspace(lo, hi, 100), (t, c, k), der=2)] if k >= 2 else []}
             o["nan_scalar"] = None if math.isnan(o["nan_scalar"]) else o["nan_scalar"]
             # inverse
             ylo, yhi = min(o["flo"], o["fhi"]), max(o["flo"], o["fhi"])
@@ -389,6 +390,9 @@ def run(ctx):
         evals = [c["case"] for c in corpus if c.get("kind") == "eval"] + [gen_eval_case(rng) for _ in range(ctx.n(60, 3000))]
         fits = [c["case"] for c in corpus if c.get("kind") == "fit"] + opposed_tables() + [gen_table(rng) for _ in range(ctx.n(14, 500))]
         lookups = [c["case"] for c in corpus if c.get("kind") == "lookup"]
+        # options that only the ini file carries, contradicting the shape of the data
+        ot = opposed_tables()
+        lookups.append({"tables": {"tabc": ot[5], "tabm": ot[0]}, "ini": True})
         for _ in range(ctx.n(8, 250)):
             lookups.append({"tables": {"tab%d" % i: gen_table(rng, rng.choice(["inc_convex", "dec_convex", "inc", "dec", "dec_concave", "inc_concave"]))
                                        for i in range(rng.choice([1, 2]))}, "ini": rng.random() < 0.7})
@@ -499,6 +503,14 @@ def run(ctx):
                 if not close(a, b, 1e-8):
                     ctx.violation("lookup/evaluation", dict(rep, table=name, x=xv, value=a, reference=b), what="lookup table %s(%r) = %r, reference spline %r" % (name, xv, a, b))
                     break
+            tab = case["tables"][name]
+            if case["ini"] and tab["curv"] != 0 and o.get("d2_test"):
+                sgn = 1 if tab["curv"] > 0 else -1
+                sc_ = max(1.0, max(abs(v) for v in tab["y"])) / (tab["x"][-1] - tab["x"][0]) ** 2
+                badc = [i for i, d2 in enumerate(o["d2_test"]) if sgn * d2 < -1e-6 * sc_]
+                if badc:
+                    ctx.violation("lookup/curvature-option", dict(rep, table=name, at=badc[:5], values=[o["d2_test"][i] for i in badc[:5]]),
+                                  what="table %s fitted through curvefit_options.ini (curvature = %+d) has the wrong curvature sign at test points %s" % (name, tab["curv"], badc[:3]))
             if not close(o["scalar"], o["table"][3], 1e-12):
                 ctx.violation("lookup/scalar-vs-array", dict(rep, table=name), what="scalar and array calls disagree")
             if o["nan"][1] is not None or o["nan"][0] is None or o["nan_scalar"] is not None:
